@@ -660,11 +660,12 @@ def check(tier, seed):
     began = time.time()
     me = __import__('simverif.props.c11', fromlist=['x'])
     extra = prepare(tier)
+    histories = core.history_batch(me, seed, tier, extra, scale=0.5)      # first: this process has executed no run yet
     core.determinism_selftest(me, seed, tier, extra, count=40)
     n_runs, wall, _ = BUDGET[tier]
     sweep = core.run_batch(me, seed, tier, len(zones()), 300.0, {'phase': 'zones'})
     explore = core.run_batch(me, seed, tier, n_runs, wall, extra)
-    batches = [sweep, explore]
+    batches = [sweep, explore, histories]
     exhaustive_ints = False
     if tier == 'thorough':
         # every 1-, 2- and 3-byte value in all four byte orders: 20 * (16 + 4096 blocks)
